@@ -241,6 +241,13 @@ pub fn created(k: Kind, id: u32) {
     });
 }
 
+/// a probe object owned by the harness: may reuse an id (it never enters a container)
+pub fn created_probe(k: Kind, id: u32) {
+    with(|c| {
+        table(c, k).insert(id, Life::Live);
+    });
+}
+
 pub fn used(k: Kind, id: u32) {
     with(|c| match table(c, k).get(&id) {
         Some(Life::Live) => {}
